@@ -17,7 +17,7 @@ pub fn property() -> Property {
     Property {
         id: "C08",
         level: "exploration",
-        rule: "Bounded-exhaustive configuration matrix: scheme {http, https} x host {domain, IDN, IPv4, IPv6} x port {absent, scheme default written explicitly, non-default} x path {empty, /, deep, percent-encoded} x query {none, some} x fragment {none, some} x URL userinfo {none, user, user:pass} x proxy {none, http, https} x proxy userinfo {none, some} x proxy port {default, explicit} x caller-set Host header {none, bogus}. Observed: the address handed to the connector (hook H1 dial log: scheme, host, port, TLS name) and the request bytes received by the peer - for https-via-proxy the request is decrypted by a live TLS server behind the scripted CONNECT reply (bridge mode, certificate checks waived for this property). Oracle: reference function (URL, proxy settings) -> (dial host, port, target form, Host) written from the statement: proxy if one is selected else URL host + effective port; origin-form for direct and tunnelled, absolute-form for http via proxy; no fragment, no userinfo in the target; exactly one Host == host[:non-default port] (IPv6 bracketed) for direct and tunnelled requests - whatever Host fields the caller supplied {none, one, two on the request, one on the session + one appended}. The 'redirected' generator judges the second request of a 307 (Location plain, or carrying credentials and a fragment) and both requests of a second send() of the same PreparedRequest with the same reference. Non-trivial: every configuration; distinct = hash(URL, proxy URL, caller Host).",
+        rule: "Bounded-exhaustive configuration matrix: scheme {http, https} x host {domain, IDN, IPv4, IPv6} x port {absent, scheme default written explicitly, non-default, the other scheme's default} x path {empty, /, deep, percent-encoded} x query {none, some} x fragment {none, some} x URL userinfo {none, user, user:pass} x proxy {none, http, https} x proxy userinfo {none, some} x proxy port {default, explicit} x caller-set Host header {none, bogus}. Observed: the address handed to the connector (hook H1 dial log: scheme, host, port, TLS name) and the request bytes received by the peer - for https-via-proxy the request is decrypted by a live TLS server behind the scripted CONNECT reply (bridge mode, certificate checks waived for this property). Oracle: reference function (URL, proxy settings) -> (dial host, port, target form, Host) written from the statement: proxy if one is selected else URL host + effective port; origin-form for direct and tunnelled, absolute-form for http via proxy; no fragment, no userinfo in the target; exactly one Host == host[:non-default port] (IPv6 bracketed) for direct and tunnelled requests - whatever Host fields the caller supplied {none, one, two on the request, one on the session + one appended}. The 'redirected' generator judges the second request of a 307 (Location plain, or carrying credentials and a fragment) and both requests of a second send() of the same PreparedRequest with the same reference. Non-trivial: every configuration; distinct = hash(URL, proxy URL, caller Host).",
         assumptions: &["the Host field of a plain-http request sent through a proxy is recorded but not judged (the statement fixes it for direct and tunnelled requests only)", "tunnelled rows: the proxy side of CONNECT is judged by C12, here only what travels inside the tunnel"],
         min_nontrivial: |t| t.pick(3_000, 20_000),
         gens,
@@ -27,7 +27,7 @@ pub fn property() -> Property {
 }
 
 const HOSTS: [&str; 4] = ["origin.test", "bücher.test", "192.0.2.7", "[2001:db8::7]"];
-const PORTS: [u8; 3] = [0, 1, 2]; // absent, default explicit, non-default
+const PORTS: [u8; 4] = [0, 1, 2, 3]; // absent, default explicit, non-default, the OTHER scheme's default (http://h:443, https://h:80)
 const PATHS: [&str; 4] = ["", "/", "/a/b/c.txt", "/p%20q/%C3%BC/x%2Fy"];
 const QUERIES: [&str; 2] = ["", "?k=v&x=%26"];
 const FRAGMENTS: [&str; 2] = ["", "#frag/ment?x"];
@@ -76,13 +76,14 @@ fn decode(index: u64) -> Config {
     let frag = FRAGMENTS[take(2)];
     let query = QUERIES[take(2)];
     let path = PATHS[take(4)];
-    let port_kind = PORTS[take(3)];
+    let port_kind = PORTS[take(PORTS.len())];
     let host = HOSTS[take(4)];
     let https = take(2) == 1;
     let scheme = if https { "https" } else { "http" };
     let port = match port_kind {
         0 => String::new(),
         1 => format!(":{}", if https { 443 } else { 80 }),
+        3 => format!(":{}", if https { 80 } else { 443 }),
         _ => ":8443".to_owned(),
     };
     let url = format!("{scheme}://{userinfo}{host}{port}{path}{query}{frag}");
@@ -107,6 +108,7 @@ fn expected(cfg: &Config) -> Expected {
     let default_port = if cfg.https { 443 } else { 80 };
     let port = match cfg.port_kind {
         2 => 8443,
+        3 => if cfg.https { 80 } else { 443 },
         _ => default_port,
     };
     // host as it must appear in Host / the dial: IDN in its ASCII form, IPv6 bracketed in Host
@@ -210,7 +212,7 @@ fn judge(ctx: &mut Ctx, cfg: &Config, exp: &Expected, dial: &attohttpc::verif_ho
         if hosts.len() != 1 {
             ctx.violation("host-field-count", descr(&format!("{} Host fields: {:?}", hosts.len(), hosts.iter().map(|h| show(h)).collect::<Vec<_>>())));
         } else if !String::from_utf8_lossy(hosts[0]).eq_ignore_ascii_case(&exp.host_field) {
-            let sig = if cfg.port_kind == 2 { "host-field-differs:nondefault-port" } else if cfg.port_kind == 1 { "host-field-differs:explicit-default-port" } else { "host-field-differs" };
+            let sig = if cfg.port_kind >= 2 { "host-field-differs:nondefault-port" } else if cfg.port_kind == 1 { "host-field-differs:explicit-default-port" } else { "host-field-differs" };
             ctx.violation(sig, descr(&format!("Host is {:?}, expected {:?}", show(hosts[0]), exp.host_field)));
         }
     } else {
@@ -224,7 +226,7 @@ fn judge(ctx: &mut Ctx, cfg: &Config, exp: &Expected, dial: &attohttpc::verif_ho
     if cfg.host.starts_with('[') {
         ctx.count("ipv6_hosts", 1);
     }
-    if cfg.port_kind == 2 {
+    if cfg.port_kind >= 2 {
         ctx.count("nondefault_ports", 1);
     }
     if cfg.url.contains('@') {
